@@ -131,8 +131,12 @@ SortSet(S) == IF S = {} THEN << >>
 SeqSet(s) == {s[j] : j \in 1..Len(s)}
 
 \* ------------------------------------------------------------------ worlds
-\* forests: a later node hangs below an earlier one or directly below the world directory
-Trees(n) == {p \in [1..n -> 0..(n - 1)] : p[1] = 0 /\ \A k \in 2..n : p[k] < k}
+\* a later node hangs below an earlier one, or (forests) directly below the world directory.
+\* Scope: forests and sibling-prefix names are explored exhaustively for up to 3 directories (4 in the "deep" family,
+\* forests also in the largest "deep"/"orderdeep" trees); larger trees have one root and plain names.
+UseForest(n) == n <= 3 \/ Family \in {"deep", "orderdeep"}
+UseExt(n) == Family \notin {"order", "orderdeep"} /\ (n <= 3 \/ (Family = "deep" /\ n <= 4))
+Trees(n) == {p \in [1..n -> 0..(n - 1)] : p[1] = 0 /\ \A k \in 2..n : p[k] < k /\ (UseForest(n) \/ p[k] >= 1)}
 AllKinds == PlainKinds \cup FreeKinds
 KindVecs(n) == {kv \in [1..n -> AllKinds] : kv[1] = "go" /\ Cardinality({k \in 1..n : kv[k] \in FreeKinds}) <= 1}
 ExclPairs == {<<0, 0>>} \cup {<<e, 0>> : e \in 1..NExcl} \cup {<<0, e>> : e \in 1..NExcl}
@@ -230,7 +234,7 @@ ChooseTree == /\ pc = "choose-tree"
               /\ UNCHANGED <<pk, pass, pending, recq>>
 
 ChooseKinds == /\ pc = "choose-kinds"
-               /\ \E xv \in (IF Family \in {"order", "orderdeep"} THEN {Const(W.n, FALSE)} ELSE ExtVecs(W.n)) :
+               /\ \E xv \in (IF UseExt(W.n) THEN ExtVecs(W.n) ELSE {Const(W.n, FALSE)}) :
                     /\ IF Family = "discovery" THEN \E kv \in KindVecs(W.n) : W' = [W EXCEPT !.kind = kv, !.ext = xv]
                                                ELSE W' = [W EXCEPT !.ext = xv]
                     /\ \A k \in 1..W.n : ExtOK(W', k)
